@@ -1153,3 +1153,34 @@ Qed.
 
 Lemma rejected_builds_nothing bs hashes : fc_parse bs = Err -> fc_deserialize bs hashes = Err.
 Proof. intros E. unfold fc_deserialize. rewrite E. reflexivity. Qed.
+
+(* non-vacuity for C13: a foreign image with every liberty taken, and a weight-carrying sketch without counters in the four-long form *)
+Lemma ex_foreign :
+  let a := mkFA 5 3 40 2 [(7%Z, 30); ((-1)%Z, 8)] in
+  let v := mkV 3 0xFA 0xBEEF 0xDEADBEEF true in
+  abs_wf a /\ variant_ok v a /\
+  (exists s, fc_deserialize (enc_spec v a) [12; 11] = Ok s /\ abs_fc s = mkFA 5 3 40 2 [((-1)%Z, 8); (7%Z, 30)]) /\
+  let a0 := mkFA 4 4 35 5 [] in
+  abs_wf a0 /\ variant_ok (mkV 1 0 0 0 true) a0 /\
+  exists s, fc_deserialize (enc_spec (mkV 1 0 0 0 true) a0) [] = Ok s /\ abs_fc s = a0.
+Proof.
+  cbv zeta. split; [|split; [|split; [|split; [|split]]]].
+  - constructor; cbn.
+    + lia.
+    + repeat constructor; cbn; intuition congruence.
+    + repeat constructor; cbn; lia.
+    + repeat constructor; unfold i64_ok; lia.
+    + split; [vm_compute; discriminate|vm_compute; reflexivity].
+    + unfold M64. lia.
+  - unfold variant_ok. cbn. repeat split; try lia.
+  - eexists. split; vm_compute; reflexivity.
+  - constructor; cbn.
+    + lia.
+    + constructor.
+    + constructor.
+    + constructor.
+    + split; [vm_compute; discriminate|vm_compute; reflexivity].
+    + unfold M64. lia.
+  - unfold variant_ok. cbn. repeat split; try lia.
+  - eexists. split; vm_compute; reflexivity.
+Qed.
